@@ -369,7 +369,14 @@ func (rs *s3ClientStorage) ListObjectVersions(ctx context.Context, bucketName st
 		versions = append(versions, storage.ObjectVersion{Key: storage.MustNewObjectKey(*marker.Key), VersionID: *marker.VersionId, IsDeleteMarker: true, IsLatest: aws.ToBool(marker.IsLatest), LastModified: *marker.LastModified})
 	}
 
-	return &storage.ListObjectVersionsResult{Versions: versions, IsTruncated: aws.ToBool(result.IsTruncated), NextKeyMarker: result.NextKeyMarker, NextVersionIDMarker: result.NextVersionIdMarker}, nil
+	commonPrefixes := []string{}
+	for _, commonPrefix := range result.CommonPrefixes {
+		if commonPrefix.Prefix != nil {
+			commonPrefixes = append(commonPrefixes, *commonPrefix.Prefix)
+		}
+	}
+
+	return &storage.ListObjectVersionsResult{Versions: versions, CommonPrefixes: commonPrefixes, IsTruncated: aws.ToBool(result.IsTruncated), NextKeyMarker: result.NextKeyMarker, NextVersionIDMarker: result.NextVersionIdMarker}, nil
 }
 
 func (rs *s3ClientStorage) HeadObject(ctx context.Context, bucketName storage.BucketName, key storage.ObjectKey, opts *storage.HeadObjectOptions) (*storage.Object, error) {
